@@ -28,7 +28,10 @@ ASSUMPTIONS = [
     "group addressing)",
 ]
 
-ALPHABET = ["none", "err", 0, 1, 6, 7, 254, 255]
+# "err" = framing error carrying harmless bits; "err254"/"err255" = framing error whose bits read as the
+# end-of-list / multiple-types markers (two units colliding, one of them sending the marker)
+ALPHABET = ["none", "err", "err254", "err255", 0, 1, 6, 7, 254, 255]
+ERRS = ("err", "err254", "err255")
 
 
 def _load():
@@ -161,8 +164,9 @@ class ScriptBus(Bus):
             return None
         if item == "none":
             return cmd.response(None)
-        if item == "err":
-            return cmd.response(frame.BackwardFrameError(0x55 if step % 2 else 0x06))
+        if item in ERRS:
+            v = {"err254": 254, "err255": 255}.get(item, 0x55 if step % 2 else 0x06)
+            return cmd.response(frame.BackwardFrameError(v))
         return cmd.response(frame.BackwardFrame(item))
 
 
@@ -172,7 +176,7 @@ def ref_types(stream):
     def at(i):
         return stream[min(i, len(stream) - 1)]
     a0 = at(0)
-    if a0 in ("none", "err"):
+    if a0 == "none" or a0 in ERRS:
         return set(), True, 1
     if a0 < 254:
         return {(a0,)}, False, 1
@@ -188,7 +192,7 @@ def ref_types(stream):
         i = 1
         while True:
             a = at(i)
-            if a in ("none", "err"):
+            if a == "none" or a in ERRS:
                 raise_ok = True
                 break
             if a == 254:
@@ -236,7 +240,7 @@ def case_stream(case):
             raise
         return [("C08:types-raised:%s" % type(e).__name__, "%s raised %r" % (where, e))]
     if not isinstance(r, list) or tuple(r) not in accept:
-        kind = "framing-error-taken-as-data" if "err" in stream[:bus.n] else \
+        kind = "framing-error-taken-as-data" if any(x in ERRS for x in stream[:bus.n]) else \
             "out-of-order-accepted" if stream[0] == 255 else "wrong"
         return [("C08:types-wrong-data:" + kind, "%s returned %r; acceptable: %s%s"
                  % (where, r, sorted(accept), " or DALISequenceError" if raise_ok else ""))]
@@ -250,7 +254,7 @@ def case_qgroups_stream(case):
     sequences, address, exc = _load()
     stream = case["stream"]
     bus = ScriptBus(stream, max_commands=20)
-    bad = any(x in ("none", "err") for x in stream[:2])
+    bad = any(x == "none" or x in ERRS for x in stream[:2])
     where = "QueryGroups against answers %r" % (stream,)
     try:
         r = bus.run(sequences.QueryGroups(address.GearShort(3)))
@@ -346,11 +350,11 @@ def _shard(arg):
                     run({"kind": "stream", "stream": stream}, nt=(a0 == 255 and n >= 1), label="stream:len%d" % (n + 1))
         res.sample({"kind": "stream", "stream": [255, 1, 6, 6]}, cls="adversarial stream")
     elif kind == "gstreams":
-        vals = ["none", "err", 0, 1, 0x80, 0xFF, 0x55]
+        vals = ["none", "err", "err255", 0, 1, 0x80, 0xFF, 0x55]
         for a0 in vals:
             for a1 in vals:
                 run({"kind": "gstream", "stream": [a0, a1]}, label="gstream")
-                if a0 in ("none", "err") or a1 in ("none", "err"):
+                if a0 in ("none",) + ERRS or a1 in ("none",) + ERRS:
                     run({"kind": "sgfault", "stream": [a0, a1]}, label="setgroups-fault")
         res.sample({"kind": "gstream", "stream": ["err", 1]}, cls="group query fault")
     elif kind == "hyp":
